@@ -27,7 +27,7 @@ RULE = (
     "compare -> a fresh second copy merges the original -> common continuation on original and copy (same planted draws for log types) -> "
     "compare -> continue from the copy. Oracle: same class; equal public parameters (width, depth, max_count, num_reserved, base, p, seed, phi, "
     "max_key_len); equal tables, n_added(), n_records(); equal queries for every universe key (heavy hitters: query(inf,t) for t in {None,0,1} and "
-    "hh[key]; HyperLogLog: query()); merge raises nothing. Deterministic part: for all 6 ordered pairs of count-min types and several shapes the "
+    "hh[key]; HyperLogLog: query()); merge raises nothing. Thorough tier only: one linear sketch with a table of exactly 2 GiB (width 2^26, depth 8) is saved, loaded and compared. A few standard environment variables (SOURCE_DATE_EPOCH=0 or unparsable, TZ, LC_ALL) are set to unusual values in half of the cases. Deterministic part: for all 6 ordered pairs of count-min types and several shapes the "
     "class loader of one type must reject a file written by another (any exception), and countmin.load must return the writer's class; for default-phi heavy hitters of every width 1..250 (thorough 1..1000) with n_added = k*width and keys holding exactly k-1 and k, original and loaded copy must answer alike. "
     "Non-trivial: non-default parameter, or non-empty state, or shared-memory load. Distinct = distinct case."
 )
@@ -102,7 +102,7 @@ def cases(draw):
     loads = [{"via": draw(st.sampled_from(["class", "module"])), "shm": draw(st.sampled_from([False, False, True])), "pre": draw(st.sampled_from([None, None, "twin", "twin", "garbage"])),
               # the target path: an ordinary name, a base name of 254 bytes (NAME_MAX is 255), or a symbolic link to the file
               "name": draw(st.sampled_from(["plain", "plain", "plain", "long", "symlink"]))} for _ in range(rounds)]
-    return {"cfg": cfg, "U": U, "hist": hist, "loads": loads, "n_records": draw(st.sampled_from([0, 0, 1, 7, 2**40]))}
+    return {"cfg": cfg, "U": U, "hist": hist, "loads": loads, "n_records": draw(st.sampled_from([0, 0, 1, 7, 2**40])), "env": draw(st.sampled_from([None, None, None, None, "epoch0", "epoch_bad", "tz", "lang"]))}
 
 
 def remap(s, perm):
@@ -197,7 +197,26 @@ def load_via(kind, path, via, shm):
     return sut(CLASS_OF[kind].load, path, shm)
 
 
+ENVS = {"epoch0": {"SOURCE_DATE_EPOCH": "0"}, "epoch_bad": {"SOURCE_DATE_EPOCH": "yesterday"}, "tz": {"TZ": "Pacific/Kiritimati"}, "lang": {"LC_ALL": "tr_TR.UTF-8", "LANG": "tr_TR.UTF-8"}}
+
+
 def run_case(case):
+    """the process environment is part of the environment a library may read: a few standard variables are set to
+    unusual values for the duration of a case (the unchanged library reads none of them)"""
+    env = ENVS.get(case.get("env"), {})
+    saved = {k: os.environ.get(k) for k in env}
+    os.environ.update(env)
+    try:
+        return _run_case(case)
+    finally:
+        for k, v in saved.items():
+            if v is None:
+                os.environ.pop(k, None)
+            else:
+                os.environ[k] = v
+
+
+def _run_case(case):
     cfg = case["cfg"]
     from vf.world import reset_interference
 
@@ -279,6 +298,8 @@ def _shard(arg):
             cl.append("saved_over_a_lookalike_sketch_file")
         if any(l.get("pre") == "garbage" for l in case["loads"]):
             cl.append("saved_over_a_file_that_is_not_a_sketch")
+        if case.get("env"):
+            cl.append("unusual_process_environment")
         if any(l.get("name") == "long" for l in case["loads"]):
             cl.append("file_name_of_254_bytes")
         if any(l.get("name") == "symlink" for l in case["loads"]):
@@ -410,8 +431,36 @@ def _hh_ties_task(arg):
     return rec
 
 
+def _huge_task(arg):
+    """a linear sketch whose table is exactly 2 GiB (width 2^26, depth 8): beyond the 32-bit limits of zip members"""
+    rec = common.Recorder()
+    case = {"huge_table": True}
+    tmp = tempfile.mkdtemp(prefix="vf_c10h_")
+    try:
+        sk = CountMinLinear(2**26, 8)
+        keys = [b"", b"\0", b"a", b"huge-table-key", b"\xff" * 9]
+        for i, k in enumerate(keys):
+            sk.add(k, 1000 + i)
+        sk.n_added_records[1] = np.uint64(77)
+        path = os.path.join(tmp, "h.npz")
+        sut(sk.save, path)
+        cp = sut(CountMinLinear.load, path)
+        if (int(cp.width), int(cp.depth)) != (2**26, 8) or int(cp.n_added()) != int(sk.n_added()) or int(cp.n_records()) != 77:
+            raise Violation("2 GiB linear table: parameters or bookkeeping differ after load", "bookkeeping-differs")
+        if any(sut(cp.query, k) != sut(sk.query, k) for k in keys) or not np.array_equal(sk.cms, cp.cms):
+            raise Violation("2 GiB linear table: loaded table differs from the saved one", "state-differs")
+        rec.case(case, True, ["table_of_2_GiB"])
+    except Violation as v:
+        rec.violation(case, v.msg, v.signature)
+    finally:
+        shutil.rmtree(tmp, ignore_errors=True)
+    return rec
+
+
 def run(tier, seed, rec):
     cross_type(rec)
+    if tier != "quick":
+        common.pool_merge(_huge_task, [0], rec, nproc=1)
     common.pool_merge(_hh_ties_task, [(common.derive_seed(seed, "C10-ties", i), 250 if tier == "quick" else 4000) for i in range(16)], rec)
     common.pool_merge(_phi_grid, [(lo, lo + 25) for lo in range(1, 251 if tier == "quick" else 1001, 25)], rec)
     total, shards = (2400, 16) if tier == "quick" else (40000, 32)
@@ -419,6 +468,11 @@ def run(tier, seed, rec):
 
 
 def replay(case):
+    if case.get("huge_table"):
+        r = _huge_task(0)
+        if r.violations:
+            raise Violation(r.violations[0]["msg"], r.violations[0]["signature"])
+        return
     if case.get("hh_ties"):
         sk = HeavyHitters(case["width"], case["depth"], 4)
         for k in case["stream"]:
